@@ -27,6 +27,10 @@ def in_domain(q):
 
 def run(res, tier):
     proved = prove(res, "Proofs.Props.C11", THEOREMS)
+    if not getattr(res, "gendriver_ok", True):
+        res.violation({"reason": "the translated folders no longer elaborate", "log": res.gendriver_log,
+                       "obligation": "lean/Model/Generated.lean"}, failing_input=False)
+        return
     # tie 1: translated functions == the Python functions, and (search) Python functions vs combinator arithmetic
     n, tr, spec = gencheck.run(seed(), 200 if tier == "quick" else 4000)
     stats = collections.Counter()
